@@ -37,8 +37,9 @@ pub fn cfg_strat() -> BoxedStrategy<FileCfg> {
         prop::bool::weighted(0.15),
         prop::bool::weighted(0.5),
         prop::bool::weighted(0.15),
+        crate::mr::build_variant_strat(),
     )
-        .prop_flat_map(|(rot, mode, suffix, crlf, start_ts, utc, via_logger, symlink)| {
+        .prop_flat_map(|(rot, mode, suffix, crlf, start_ts, utc, via_logger, symlink, build_variant)| {
             let empty_infix = match &rot {
                 None => true,
                 Some((_, n)) => n.current_token().as_deref() == Some(""),
@@ -60,6 +61,7 @@ pub fn cfg_strat() -> BoxedStrategy<FileCfg> {
                 symlink,
                 bg_cleanup: false,
                 via_logger: via_logger && !utc,
+                build_variant,
             })
         })
         .boxed()
